@@ -7,7 +7,7 @@ from typing import Dict, List, Optional, Set, Tuple
 from ..cfg import CFG, Node
 from ..core import AnalysisError, Cls, Fn, Repo, call_name, calls_in, const_value, dotted, get_kw, last_attr, short, walk_no_nested
 from ..registry import extract
-from ..pat import has
+from ..pat import find, has
 from ..report import Check
 from ..terms import Atom, Poly, TermBuilder, mentions, single_atom, walk_atoms
 
@@ -93,20 +93,27 @@ def _get_action(ck: Check, repo: Repo, fn: Fn, cname: str) -> Optional[str]:
     ck.ob("C19.1", fn, u.ast, ok, f"{cname}: the update is S - (S v v^T S) / (1 + v^T S v) with matching factors in order", detail=detail)
     # the arm used for v is the arm returned
     rets = [n for n in cfg.live_nodes() if n.kind == "stmt" and isinstance(n.ast, ast.Return)]
-    vdef = [n for n in cfg.live_nodes() if n.kind == "stmt" and isinstance(n.ast, ast.Assign) and dotted(n.ast.targets[0]) == "v"]
+    # roles, not spellings: g is the local that holds torch.zeros((action_dim, numel)); v is the local the update statement reads
+    g_name = _local_bound_to(cfg, lambda e: any(call_name(c) == "torch.zeros" for c in ast.walk(e) if isinstance(c, ast.Call)))
+    vdef = _feature_defs(cfg, u, g_name, fn.params)
     if rets and vdef:
         ra = dotted(rets[0].ast.value)
-        ok = isinstance(vdef[0].ast.value, ast.Call) and f"g[{ra}]" in ast.unparse(vdef[0].ast.value) and cfg.dominates(vdef[0], u)
+        ok = isinstance(vdef[0].ast.value, ast.Call) and g_name is not None and f"{g_name}[{ra}]" in ast.unparse(vdef[0].ast.value) and cfg.dominates(vdef[0], u)
         ck.ob("C19.1", fn, vdef[0].ast, ok, f"{cname}: the matrix is updated with the feature of the action that is returned")
         ck.ob("C19.1", fn, vdef[0].ast, "unsqueeze(-1)" in ast.unparse(vdef[0].ast.value), f"{cname}: v is a column vector (so v v^T is the outer product)")
     # ---- C19.4 features and bonus
     src = ast.unparse(fn.node)
     ck.ob("C19.4", fn, fn.node, has(src, 'torch.zeros((self.action_dim, self.numel))'), f"{cname}: one feature row per arm, numel columns", construct=f"{cname}: feature matrix shape")
-    loops = [n for n in cfg.live_nodes() if n.kind == "for" and "enumerate(mu)" in ast.unparse(n.ast.iter)]
+    # mu is the local that holds the actor's output self.actor(...); k is the index variable of the loop over enumerate(mu)
+    mu_name = _local_bound_to(cfg, lambda e: isinstance(e, ast.Call) and call_name(e) == "self.actor")
+    loops = [n for n in cfg.live_nodes() if n.kind == "for" and mu_name is not None and f"enumerate({mu_name})" in ast.unparse(n.ast.iter)]
     ok = len(loops) == 1
     if ok:
         body = ast.unparse(ast.Module(body=loops[0].ast.body, type_ignores=[]))
-        ok = "self.optimizer.zero_grad()" in body and ".backward(retain_graph=True)" in body and "for w in self.exp_layer.parameters() if w.requires_grad" in body and "g[k] =" in body
+        tgt = loops[0].ast.target
+        k_name = tgt.elts[0].id if isinstance(tgt, ast.Tuple) and tgt.elts and isinstance(tgt.elts[0], ast.Name) else None
+        ok = "self.optimizer.zero_grad()" in body and ".backward(retain_graph=True)" in body and any(_trainable_params_clause(x) for s in loops[0].ast.body for x in ast.walk(s)) \
+            and g_name is not None and k_name is not None and f"{g_name}[{k_name}] =" in body
         zi = body.find("zero_grad()")
         bi = body.find(".backward(")
         ok = ok and 0 <= zi < bi
@@ -116,12 +123,56 @@ def _get_action(ck: Check, repo: Repo, fn: Fn, cname: str) -> Optional[str]:
     okb = False
     for c in bonus:
         s = ast.unparse(c)
-        okb = "torch.matmul(torch.matmul(g[:, None, :], self.sigma_inv), g[:, :, None])" in s
+        okb = g_name is not None and f"torch.matmul(torch.matmul({g_name}[:, None, :], self.sigma_inv), {g_name}[:, :, None])" in s
         n = cfg.node_of(c)
     ck.ob("C19.4", fn, bonus[0] if bonus else fn.node, okb, f"{cname}: the exploration width is sqrt(g_k S g_k^T) per arm (non-negative by construction)")
     ck.ob("C19.4", fn, fn.node, "self.gamma * torch.sqrt(" in src or "self.gamma\n" in src or "std=self.gamma * torch.sqrt(" in src, f"{cname}: the width is scaled by gamma",
           construct=f"{cname}: gamma scaling")
     return key
+
+
+def _local_bound_to(cfg: CFG, pred) -> Optional[str]:
+    """The local variable whose (single kind of) definition `name = <value>` has a value accepted by pred; None when there is
+    none or when two different locals qualify."""
+    names = {n.ast.targets[0].id for n in cfg.live_nodes() if n.kind == "stmt" and isinstance(n.ast, ast.Assign) and len(n.ast.targets) == 1
+             and isinstance(n.ast.targets[0], ast.Name) and pred(n.ast.value)}
+    return next(iter(names)) if len(names) == 1 else None
+
+
+def _feature_defs(cfg: CFG, u: Node, g_name: Optional[str], params: List[str]) -> List[Node]:
+    """The definitions `v = <expression over g>` the update statement u reads (directly or through temporaries): v is found by
+    following the locals read by u back to the first definitions whose value mentions the feature matrix g."""
+    out: List[Node] = []
+    seen: Set[Tuple[int, str]] = set()
+    work = [(u, x.id) for x in ast.walk(u.ast.value) if isinstance(x, ast.Name)]
+    while work:
+        at, name = work.pop()
+        if (at.id, name) in seen or name in params or name == g_name:
+            continue
+        seen.add((at.id, name))
+        for d in cfg.defs_reaching(at, name):
+            if d.kind != "stmt" or not isinstance(d.ast, ast.Assign) or dotted(d.ast.targets[0]) != name:
+                continue
+            if any(isinstance(x, ast.Name) and x.id == g_name for x in ast.walk(d.ast.value)):
+                if d not in out:
+                    out.append(d)
+            else:
+                work += [(d, x.id) for x in ast.walk(d.ast.value) if isinstance(x, ast.Name)]
+    out.sort(key=lambda n: n.id)
+    return out
+
+
+def _trainable_params_clause(x: ast.AST) -> bool:
+    """comprehension clause `for w in self.exp_layer.parameters() if w.requires_grad` (w: any variable)."""
+    return isinstance(x, ast.comprehension) and isinstance(x.target, ast.Name) and ast.unparse(x.iter) == "self.exp_layer.parameters()" \
+        and len(x.ifs) == 1 and isinstance(x.ifs[0], ast.Attribute) and x.ifs[0].attr == "requires_grad" \
+        and isinstance(x.ifs[0].value, ast.Name) and x.ifs[0].value.id == x.target.id
+
+
+def _is_exactly(value: ast.AST, pattern: str) -> bool:
+    """The whole expression `value` (not a part of it) has the shape of the pattern."""
+    text = ast.unparse(value)
+    return any(ast.unparse(n) == text for n, _ in find(text, pattern))
 
 
 def _s(k: str) -> str:
@@ -135,7 +186,7 @@ def _init(ck: Check, repo: Repo, modname: str, cname: str) -> None:
     st = {dotted(n.ast.targets[0]): n for n in cfg.live_nodes() if n.kind == "stmt" and isinstance(n.ast, ast.Assign)}
     ok = "self.exp_layer" in st and ast.unparse(st["self.exp_layer"].ast.value) == "self.actor.get_output_dense()"
     ck.ob("C19.2", fn, st.get("self.exp_layer").ast if "self.exp_layer" in st else fn.node, ok, f"{cname}: exp_layer is the actor's current output layer")
-    ok = "self.numel" in st and ast.unparse(st["self.numel"].ast.value) == "sum((w.numel() for w in self.exp_layer.parameters() if w.requires_grad))"
+    ok = "self.numel" in st and _is_exactly(st["self.numel"].ast.value, "sum(($w.numel() for $w in self.exp_layer.parameters() if $w.requires_grad))")
     ck.ob("C19.2", fn, st.get("self.numel").ast if "self.numel" in st else fn.node, ok, f"{cname}: numel counts the trainable parameters of that layer")
     sn = st.get("self.sigma_inv")
     ok = False
@@ -188,7 +239,9 @@ def _mutation(ck: Check, repo: Repo) -> None:
     ac = repo.fn("agilerl.hpo.mutation", "Mutations.activation_mutation")
     acfg = CFG(ac.node)
     sets = [n for n in acfg.live_nodes() if n.kind == "stmt" and isinstance(n.ast, ast.Assign) and dotted(n.ast.targets[0]) == "individual.exp_layer"]
-    ok = len(sets) == 1 and "get_exp_layer(eval_module)" in ast.unparse(sets[0].ast.value) and any("NeuralTS" in ast.unparse(g) and pol for g, pol, _ in acfg.guards_at(sets[0]))
+    # the re-created network is the value the same iteration installs with setattr(individual, network_group.eval, <module>)
+    inst = {dotted(c.args[2]) for c in calls_in(ac.node) if call_name(c) == "setattr" and len(c.args) == 3 and dotted(c.args[0]) == "individual" and isinstance(c.args[2], ast.Name)}
+    ok = len(sets) == 1 and len(inst) == 1 and f"get_exp_layer({next(iter(inst))})" in ast.unparse(sets[0].ast.value) and any("NeuralTS" in ast.unparse(g) and pol for g, pol, _ in acfg.guards_at(sets[0]))
     ck.ob("C19.3", ac, sets[0].ast if sets else ac.node, ok, "after an activation mutation of a bandit exp_layer points into the re-created network")
 
 
@@ -210,6 +263,10 @@ VARIANTS = [
     ("ucb-numel-all-actor", _UCB, "            w.numel() for w in self.exp_layer.parameters() if w.requires_grad\n", "            w.numel() for w in self.actor.parameters() if w.requires_grad\n", "fire", "C19.2"),
     ("reinit-only-policy", _MF, "            # Reinitialize bandit gradients after architecture mutation\n            if isinstance(individual, (NeuralTS, NeuralUCB)):\n                old_exp_layer = get_exp_layer(offsprings)\n                self._reinit_bandit_grads(individual, offsprings, old_exp_layer)\n", "", "fire", "C19.3"),
     ("reinit-diag-lambda", _MF, "new_sigma_inv[i, i] = 1 / individual.lamb", "new_sigma_inv[i, i] = individual.lamb", "fire", "C19.2"),
+    ("ucb-feature-row-zero-only", _UCB, "            g[k] = torch.cat(", "            g[0] = torch.cat(", "fire", "C19.4"),
+    ("ts-grads-not-zeroed", _TS, "            self.optimizer.zero_grad()\n            fx.backward(retain_graph=True)", "            fx.backward(retain_graph=True)", "fire", "C19.4"),
+    ("ucb-bonus-not-quadratic-form", _UCB, "torch.matmul(g[:, None, :], self.sigma_inv), g[:, :, None]", "torch.matmul(g[:, None, :], self.sigma_inv), self.sigma_inv[:, :, None]", "fire", "C19.4"),
+    ("act-mutation-exp-layer-of-old-net", _MF, "individual.exp_layer = get_exp_layer(eval_module)", "individual.exp_layer = get_exp_layer(getattr(individual, network_group.eval))", "fire", "C19.3"),
     ("ucb-rewrite-assign-ok", _UCB, "        self.sigma_inv -= (self.sigma_inv @ v @ v.T @ self.sigma_inv) / (\n            1 + v.T @ self.sigma_inv @ v\n        )",
      "        self.sigma_inv = self.sigma_inv - (self.sigma_inv @ v @ v.T @ self.sigma_inv) / (\n            1 + v.T @ self.sigma_inv @ v\n        )", "silent", None),
 ]
